@@ -202,11 +202,11 @@ def u_sum(U):
 
 
 # ----------------------------------------------------------------------------------------------
-# transformation.full for tensors of d = 2 and d = 3 cores (the result has ndim = d: a symbolic d is outside the value model)
+# transformation.full for tensors of d = 2 ... 5 cores (the result has ndim = d: a symbolic d is outside the value model)
 #
 # Postconditions: the result is a d-dimensional array of shape (n_1, ..., n_d) - every mode axis is kept, also those of length 1,
 # exactly the two boundary rank axes are removed - and its entry at every multi-index i is val(Y, i) (first sentence of C01).
-# Not covered: d >= 4 (same code path, bounded suite), rounding, memory layout / dtype of the result.
+# Not covered: d >= 6 (same code path, bounded suite), rounding, memory layout / dtype of the result.
 
 AXF = T.axioms('shape', 'chain')
 
@@ -254,6 +254,16 @@ def u_full2(U):
 @unit('transformation.full.d3', props=('C01',))
 def u_full3(U):
     _full_unit(U, 3)
+
+
+@unit('transformation.full.d4', props=('C01',))
+def u_full4(U):
+    _full_unit(U, 4)
+
+
+@unit('transformation.full.d5', props=('C01',))
+def u_full5(U):
+    _full_unit(U, 5)
 
 
 # ----------------------------------------------------------------------------------------------
@@ -692,6 +702,21 @@ def u_add_many3f(U):
     _add_many_unit(U, 3, 2)
 
 
+@unit('act_many.add_many.n4', props=('C01', 'C02', 'C11'))
+def u_add_many4(U):
+    _add_many_unit(U, 4, 15)
+
+
+@unit('act_many.add_many.n5', props=('C01', 'C02', 'C11'))
+def u_add_many5(U):
+    _add_many_unit(U, 5, 15)
+
+
+@unit('act_many.add_many.n5.freq2', props=('C02', 'C11'))
+def u_add_many5f(U):
+    _add_many_unit(U, 5, 2)
+
+
 # ----------------------------------------------------------------------------------------------
 # Hand-made mutants (MUT_BASE=/tmp/base tools/mut.sh <file> '<sed>' <units>) and the named obligation that reports each.
 # R(f, g) abbreviates the sed address '/^def f/,/^def g/' that restricts the edit to the function.
@@ -755,3 +780,6 @@ def u_add_many3f(U):
 #   s/(i+1) % trunc_freq == 0/i % trunc_freq == 0/                           post intermediate-truncations-exactly-when-due-..., the-tensor-handed-to-...-elementwise-sum
 #   seeded C02-4 (final truncation skipped after an intermediate one)        n3.freq2: post final-truncation-uses-..., every-rank-at-most-max(1, int(r))
 #   quiet (harmless): Y = Y_many[0] without copy (add returns a fresh list); the cap r also at intermediate truncations
+# act_many.add_many.{n4,n5,n5.freq2}, transformation.full.{d4,d5}    (added in the last session; same schemas, larger instances)
+#   act_many.py   s/enumerate(Y_many\[1:\])/enumerate(Y_many[1:3])/        n3 quiet (equivalent there); n5: post the-tensor-handed-to-the-final-truncation-denotes-the-elementwise-sum (n4: the same obligation times out = undecided)
+#   transformation.py  28s/Y\[1:\]/Y[1:4]/                                   d3, d4 quiet (equivalent there); d5: post result-has-one-axis-per-mode (refuted), shape-is-..., result-is-the-contraction-of-all-cores-...
